@@ -91,6 +91,28 @@ def judge(P, sem, run):
     return out
 
 
+def gen_prop_loops(rng):
+    """Propositional programs with dense positive and negative loops: 0-ary predicates p0..pk with 1-3 clauses whose
+    bodies mix p's (positive / negated, any direction) and probabilistic facts."""
+    from fractions import Fraction as F
+    k = rng.randint(2, 4)
+    nf = rng.randint(1, 3)
+    preds = {"f%d" % i: (0, 0) for i in range(nf)}
+    preds.update({"p%d" % i: (0, 1) for i in range(k)})
+    stmts = [("pf", F(rng.randint(1, 9), 10), ("f%d" % i, ())) for i in range(nf)]
+    negp = rng.choice([0.15, 0.3, 0.5])
+    for i in range(k):
+        for _ in range(rng.randint(1, 3)):
+            body = []
+            for _ in range(rng.randint(1, 2)):
+                a = (rng.choice(list(preds)), ())
+                body.append(("neg" if (a[0].startswith("p") and rng.random() < negp) else "pos", a))
+            stmts.append(("rule", ("p%d" % i, ()), body))
+    rng.shuffle(stmts)
+    qs = [("p%d" % rng.randrange(k), ())]
+    return dict(consts=["a"], preds=preds, stmts=stmts, queries=qs, evidence=[])
+
+
 def run(ctx):
     ctx.rule = ("typed random programs where negative literals may refer to predicates of the same or a higher level (negative "
                 "loops of length 1-4 mixed with probabilistic facts, ADs, evidence, positive recursion; loops reachable / "
@@ -113,6 +135,7 @@ def run(ctx):
         progs = [P]
     else:
         progs = [spine.gen_program(rng, negloops=rng.choice([0.0, 0.3, 0.6, 0.9]), max_level=rng.choice([1, 2, 2])) for _ in range(n)]
+        progs += [gen_prop_loops(rng) for _ in range(ctx.budget(400, 6000))]
     sems = semcheck.spec_batch(drv, progs)
     runs = pmap(_work, [spine.to_src(P) for P in progs])
     nshrunk = 0
